@@ -3,6 +3,7 @@ CONSTANTS
   MaxLen = 4
   ExcKinds = {"ValueError", "TypeError", "AttributeError", "InvalidOperation", "OverflowError"}
   Suppressed = {"ALL"}
+  NoneAcceptsAll = FALSE
   Rotation = "none_first"
 INVARIANT Refines
 INVARIANT NoneHonoured
